@@ -10,7 +10,10 @@ from . import layout as L
 
 CHAIN_VARIANTS = ["genuine", "quote-link", "quote-custom-data", "attestation-link",
                   "attestation-report-data", "qe-cert-link", "ca-cert-link",
-                  "qe-cert-expired", "qe-cert-not-yet-valid", "ca-cert-expired"]
+                  "qe-cert-expired", "qe-cert-not-yet-valid", "ca-cert-expired",
+                  # genuinely signed quotes whose report data carries the custom-data hash
+                  # somewhere else than in its first 32 bytes
+                  "quote-hash-at-7", "quote-hash-second-half", "quote-hash-second-half-first-other"]
 
 
 EXTRAS = ["root-word:own-root", "root-word:other-root", "root-word-first:own-root",
@@ -93,8 +96,17 @@ class SgxGen:
         """targets: 'quote' | 'none' | 'attestation-only' | 'no-quote-element'."""
         en = self.enclave
         rd_msg = message if chain != "quote-custom-data" else message[:-1] + bytes([message[-1] ^ 1])
+        rd = hashlib.sha256(rd_msg).digest() + bytes(32)
+        if chain == "quote-hash-at-7":
+            rd = (bytes(7) + hashlib.sha256(message).digest() + bytes(25))
+        elif chain == "quote-hash-second-half":
+            rd = bytes(32) + hashlib.sha256(message).digest()
+        elif chain == "quote-hash-second-half-first-other":
+            # commits to another message in the documented place
+            other = message[:-1] + bytes([message[-1] ^ 1])
+            rd = hashlib.sha256(other).digest() + hashlib.sha256(message).digest()
         quote = en.header + S.report_body(env.Rng("rb" + en.rb_rng_label), en.mrenclave,
-                                          en.mrsigner, hashlib.sha256(rd_msg).digest() + bytes(32))
+                                          en.mrsigner, rd)
         qkey = self.stranger if chain == "quote-link" else en.att_key
         qsig = S.der_sig(qkey.sign_raw(quote))
         qerb = en.qe_report_body
